@@ -12,7 +12,7 @@ LEVEL = 'exploration'
 
 STRINGS = [None, '', 'a', ';', '"', 'a;b', '"q"', 'x\ny', 'x\r\ny', ' lead', 'ünï', '﻿b', "'", ',', 'tail ', '""', 'a"b;c\n"']
 DATES = [None, datetime(1969, 1, 1), datetime(2024, 2, 29), datetime(2068, 12, 31)]
-NUMS = [None, 0, 2.5, 10]
+NUMS = [None, 0, 2.5, 10, 0.1 + 0.2, 1 / 3, 12500.25, 1234567, 1e-07]
 IDS = [0, -1, 1, 2, 10]
 DEFAULT_FIELDS = ['id', 'name', 'resource', 'start', 'end', 'estimate', 'spent', 'milestone', 'parent_id', 'predecessor_ids']
 TASK_FIELDS = {'name', 'resource', 'start', 'end', 'milestone', 'min_start'}
